@@ -4,9 +4,11 @@ import (
 	"bytes"
 	"crypto/sha256"
 	"encoding/hex"
+	"encoding/json"
 	"errors"
 	"fmt"
 	"os"
+	"os/exec"
 	"reflect"
 	"regexp"
 	"sort"
@@ -192,6 +194,79 @@ func emptyRes(cfg *Cfg) Res {
 	return r
 }
 
+// CompSetup - installs the environment of a completion request (COMP_LINE, ZSHELL) and answers the arguments the shell
+// hands to the program.
+func CompSetup(cfg *Cfg, c *Case) []string {
+	args := StringsOf(c.Argv)
+	os.Setenv("COMP_LINE", strings.Join(args, " "))
+	if c.Comp == "zsh" {
+		os.Setenv("ZSHELL", "true")
+	} else {
+		os.Unsetenv("ZSHELL")
+	}
+	cur, prev := "", ""
+	if len(args) > 0 {
+		cur = args[len(args)-1]
+	}
+	if len(args) > 1 {
+		prev = args[len(args)-2]
+	}
+	args = []string{FromAtoms(cfg.Prog), cur, prev}
+	if c.UseRaw {
+		os.Setenv("COMP_LINE", c.RawLine)
+		args = append([]string{}, c.RawArgs...)
+	}
+	return args
+}
+
+// RealExit - sample completion requests are also executed in a child process (the driver itself, sub-command compchild)
+var RealExit = true
+
+// RealCompletion - runs the completion request in a child process that does not replace the library's exit function
+// and completion writer; answers the exit status and what the child printed on its standard output.
+func RealCompletion(d *Def, c *Case) (int, string) {
+	exe, err := os.Executable()
+	if err != nil {
+		return -1, "no executable: " + err.Error()
+	}
+	in, _ := json.Marshal(struct {
+		Def  *Def  `json:"def"`
+		Case *Case `json:"case"`
+	}{d, c})
+	cmd := exec.Command(exe, "compchild")
+	cmd.Stdin = bytes.NewReader(in)
+	var out bytes.Buffer
+	cmd.Stdout = &out
+	err = cmd.Run()
+	code := 0
+	if ee, ok := err.(*exec.ExitError); ok {
+		code = ee.ExitCode()
+	} else if err != nil {
+		return -1, "child not started: " + err.Error()
+	}
+	return code, out.String()
+}
+
+// CompChild - the child side: the definition and the request come on standard input; Parse must not return.
+func CompChild() {
+	var in struct {
+		Def  Def  `json:"def"`
+		Case Case `json:"case"`
+	}
+	if err := json.NewDecoder(os.Stdin).Decode(&in); err != nil {
+		fmt.Fprintln(os.Stderr, "compchild:", err)
+		os.Exit(9)
+	}
+	b := Build(&in.Def.Cfg)
+	args := CompSetup(&in.Def.Cfg, &in.Case)
+	b.Root.Parse(args)
+	// not reached when the library leaves through its exit path
+	if len(b.Ran) > 0 {
+		os.Exit(8)
+	}
+	os.Exit(7)
+}
+
 func runCase(d *Def, c *Case) (res Res) {
 	cfg := &d.Cfg
 	res = emptyRes(cfg)
@@ -237,24 +312,7 @@ func runCase(d *Def, c *Case) (res Res) {
 	}
 	args := StringsOf(c.Argv)
 	if c.Comp != "" {
-		os.Setenv("COMP_LINE", strings.Join(args, " "))
-		if c.Comp == "zsh" {
-			os.Setenv("ZSHELL", "true")
-		} else {
-			os.Unsetenv("ZSHELL")
-		}
-		cur, prev := "", ""
-		if len(args) > 0 {
-			cur = args[len(args)-1]
-		}
-		if len(args) > 1 {
-			prev = args[len(args)-2]
-		}
-		args = []string{FromAtoms(cfg.Prog), cur, prev}
-		if c.UseRaw {
-			os.Setenv("COMP_LINE", c.RawLine)
-			args = append([]string{}, c.RawArgs...)
-		}
+		args = CompSetup(cfg, c)
 	}
 	if c.HasPre && c.Comp == "" && !early {
 		earlier(b)
@@ -276,6 +334,15 @@ func runCase(d *Def, c *Case) (res Res) {
 		res.Rest = ToksOf(rest)
 		res.Err = ClassifyErr(err)
 		res.Ran = append([]RanRes{}, b.Ran...)
+		if c.ID%29 == 0 && RealExit {
+			// the same request in a process of its own, with the library's own exit function and writer: the process must
+			// end with status 124 after printing exactly this list
+			code, realOut := RealCompletion(d, c)
+			fmt.Fprintf(raw, " real=%d,%q", code, realOut)
+			if code != 124 || realOut != cw.String() {
+				res.Exits = append(res.Exits, -1000-code)
+			}
+		}
 		ww, other := splitWriter(w.String())
 		res.Warn = ww
 		res.WOther = other != ""
